@@ -1,7 +1,11 @@
-(* Props/C01.v — property C01, statements only (see DESIGN.md 7/C01). *)
-From Coq Require Import List NArith Bool.
+(* Props/C01.v — property C01 (parsing any input returns a DOM: never hangs,
+   never reads past the end), statements only.  What is proved is the
+   termination / progress skeleton of the parser: tokenizer, bracket-aware
+   slicing and the two dispatch loops.  The semantic callbacks are searched on
+   the implementation (see DESIGN.md 7/C01): partial. *)
+From Coq Require Import List NArith ZArith Bool Arith.
 From CssV Require Import Base.Regex Base.Chars Base.Tokens Gen.GenLex Model.Tokenizer
-  Proofs.TokenizerFacts.
+  Model.Slice Model.Blocks Proofs.TokenizerFacts Proofs.SliceFacts Proofs.BlocksFacts.
 Import ListNotations.
 
 (* the tokenizer never gets stuck and never runs out of fuel, for every text
@@ -10,3 +14,27 @@ Theorem C01_tokenizer_total text full doc :
   valid_text text -> snd (tokenize_items text full doc) = Done.
 Proof. exact (tokenize_total text full doc). Qed.
 Print Assumptions C01_tokenizer_total.
+
+(* slicing (all 13 modes, any start token): returns a prefix of what it was
+   given, consumes at least one token of a non-empty stream, and never reads
+   past an EOF token *)
+Theorem C01_slice_is_prefix m start toks :
+  fst (tokensupto2 m start toks) ++ snd (tokensupto2 m start toks)
+  = match start with Some t => t :: toks | None => toks end.
+Proof. exact (tokensupto2_split m start toks). Qed.
+Theorem C01_slice_progress m c t r : fst (scan m c (t :: r)) <> [].
+Proof. exact (scan_nonempty m c t r). Qed.
+Theorem C01_slice_stops_at_eof m toks c :
+  Forall (fun t => tokty_eqb (ty t) T_EOF = false) (removelast (fst (scan m c toks))).
+Proof. exact (scan_eof_last m toks c). Qed.
+Print Assumptions C01_slice_is_prefix.
+Print Assumptions C01_slice_stops_at_eof.
+
+(* the sheet-level statement loop and the declaration loop terminate: with
+   fuel #tokens + 1 they never run out, i.e. every callback consumes >= 1 token *)
+Theorem C01_sheet_loop_terminates toks : snd (sheet_loop (S (length toks)) toks) = true.
+Proof. apply sheet_loop_ok. apply Nat.lt_succ_diag_r. Qed.
+Theorem C01_decl_loop_terminates toks : snd (decl_loop (S (length toks)) toks) = true.
+Proof. apply decl_loop_ok. apply Nat.lt_succ_diag_r. Qed.
+Print Assumptions C01_sheet_loop_terminates.
+Print Assumptions C01_decl_loop_terminates.
